@@ -29,7 +29,7 @@ TOL = 2e-3
 RULE = (
     "One case = one (scenario, internal order / relabelling / resume) comparison against the identity-order run of the same "
     "scenario. Scenarios have distinguishable atoms (local-channel targets, DMM weights, SLM masks, irregular geometry, dark "
-    "atoms, pi-pulse on one chosen atom) on 2-6 atoms, weakly entangling (E*dt <= 0.05, truncation off). Non-trivial iff the "
+    "atoms, pi-pulse on one chosen atom) on 2-6 atoms and (5 % / 15 % of the scenarios in the quick / thorough tier) on 8-9 / 8-16 atoms, weakly entangling (E*dt <= 0.05, truncation off). Non-trivial iff the "
     "internal order or the relabelling is not the identity and some per-atom quantity differs between atoms by >= 0.05; distinct "
     "by (N, permutation cycle type, drive kind, observable set, variant = order|relabel|resume|safeguard)."
 )
@@ -37,7 +37,7 @@ COMPONENTS = {
     "real": ["pulser sampling", "PulserData", "MPSBackendImpl.__init__/init_dark_qubits/init_initial_state/_get_interaction_matrix", "permute_results", "MPSConfig.check_permutable_observables", "MPSBackend.resume", "all TDVP numerics"],
     "stubbed": ["optimatrix.minimize_bandwidth (returns the scheduler's permutation; the real optimiser's answer is one of the choices)", "clock", "uuid", "RNG seeding", "process death for the resume variant"],
 }
-PROBES = ["non_identity_order_with_per_atom_drive", "relabelled_register", "reinserted_register", "resume_under_non_identity_order", "dark_atoms_present", "slm_mask_present", "dmm_present", "pi_pulse_bitstring", "non_permutable_observable_safeguard", "real_optimiser_order", "user_initial_state"]
+PROBES = ["non_identity_order_with_per_atom_drive", "relabelled_register", "reinserted_register", "resume_under_non_identity_order", "dark_atoms_present", "slm_mask_present", "dmm_present", "pi_pulse_bitstring", "non_permutable_observable_safeguard", "real_optimiser_order", "user_initial_state", "register_of_8_to_16_atoms", "observable_with_tag_suffix"]
 ASSUMPTIONS = [
     "comparison tolerance 2e-3 absolute on occupations / correlations, 2e-3 x |H| on energies and 2e-3 x |H|^2 on energy second moment / variance (|H| = an upper bound on the energy scale computed from the scenario, SLM detuning included); the two-site TDVP projection error depends on the site order (the largest occupation discrepancy seen over seeds 0-8 was 7e-5, with an SLM mask), a misdirected per-atom drive moves an occupation by >= 0.05; workloads keep the order-dependent TDVP error orders of magnitude below it (bond dimension uncapped, precision 1e-8, E*dt <= 0.05) and a misdirected per-atom drive changes some occupation by >= 0.05",
     "bit strings are compared exactly only in the pi-pulse workload (deterministic outcome); elsewhere through the occupations of the same run",
@@ -55,18 +55,26 @@ def gen_case(tape: Tape, tier: str) -> dict:
     n = tape.int(2, 5 if tier == "quick" else 6, "n_atoms")
     if kind in ("slm", "dark", "blockade"):
         n = max(n, 3)
+    # registers beyond the reach of a dense reference (the oracle is run-vs-run, so none is needed): 8-16 atoms,
+    # >= 9.5 um apart, short sequences, so that the MPS stays weakly entangled whatever the internal order
+    large = kind in ("local", "pi", "dmm", "geometry", "initial") and tape.bool(0.05 if tier == "quick" else 0.15, "large")
+    if large:
+        n = tape.int(8, 9 if tier == "quick" else 16, "n_large")
     # irregular geometry, atoms >= 8.5 um apart (U <= 14 rad/us)
     pts: list[tuple[float, float]] = []
     tries = 0
     close_pair = kind == "blockade" or (kind == "slm" and tape.bool(0.7, "slm_close_pair"))
     box = (10.0 + 5.0 * n) if not close_pair else (30.0 + 10.0 * n)
+    dmin = 8.5 if not close_pair else 15.0
+    if large:
+        box, dmin = 14.0 * math.sqrt(n) + 10.0, 9.5
     while len(pts) < n:
         x, y = round(tape.float(0, box, "x"), 2), round(tape.float(0, box, "y"), 2)
         tries += 1
-        if all(math.hypot(x - a, y - b) >= (8.5 if not close_pair else 15.0) for a, b in pts):
+        if all(math.hypot(x - a, y - b) >= dmin for a, b in pts):
             pts.append((x, y))
         elif tries > 300:
-            pts.append((max(p[0] for p in pts) + (9.0 if not close_pair else 16.0), 0.0))
+            pts.append((max(p[0] for p in pts) + dmin + 0.5, 0.0))
     pair = None
     if close_pair:
         # one strongly interacting pair (8.6-9.2 um, U = 9..13 rad/us) among otherwise distant atoms: which two atoms
@@ -85,6 +93,8 @@ def gen_case(tape: Tape, tier: str) -> dict:
     labels = [f"q{i}" for i in range(n)]
     atoms = [[labels[i], pts[i][0], pts[i][1]] for i in range(n)]
     T = tape.int(20, 90, "T") if not close_pair else tape.int(70, 100, "T")
+    if large:
+        T = min(T, 20 + T % 21)
     dt = float(tape.choice([1, 2, 3], "dt")) if not close_pair else float(tape.choice([2, 3], "dt"))
     ops: list[dict] = []
     scn: dict[str, Any] = {"atoms": atoms, "xy": False, "modulation": False, "has_local": False, "local_init": None, "dmm": None, "slm": None, "ops": ops}
@@ -136,11 +146,18 @@ def gen_case(tape: Tape, tier: str) -> dict:
     times = sorted({1.0} | {round(tape.float(0.1, 0.9, f"et{i}"), 3) for i in range(tape.int(0, 2, "n_times"))})
     obs = [{"kind": k, "times": times} for k in obs_kinds if k == "occupation" or tape.bool(0.6, f"obs_{k}")]
     obs.append({"kind": "bitstrings", "times": [1.0], "shots": 200 if kind != "pi" else 50})
+    # a second instance of a per-atom observable under its own tag (tag_suffix): it must be un-permuted like the first
+    if tape.bool(0.3, "suffixed_obs"):
+        sk = tape.choice(["occupation", "correlation_matrix", "bitstrings"], "suffixed_kind")
+        so: dict[str, Any] = {"kind": sk, "times": [1.0], "suffix": "x"}
+        if sk == "bitstrings":
+            so["shots"] = 50
+        obs.append(so)
     cfg: dict[str, Any] = {"backend": "mps", "dt": dt, "observables": obs, "default_times": None, "precision": 1e-8, "max_bond_dim": 1024, "optimize": True, "solver": "tdvp", "autosave_dt": 11.0}
     for k in ("interaction_matrix", "noise"):
         if k in cfg_extra:
             cfg[k] = cfg_extra[k]
-    return {"scn": scn, "cfg": cfg, "T": float(S.build_sequence(scn).get_duration()), "n": n, "kind": kind, "extra": cfg_extra, "solver": "tdvp"}
+    return {"scn": scn, "cfg": cfg, "T": float(S.build_sequence(scn).get_duration()), "n": n, "kind": kind, "extra": cfg_extra, "solver": "tdvp", "large": large}
 
 
 def cycle_type(p: list[int]) -> str:
@@ -282,6 +299,10 @@ def run_one(tape: Tape, tier: str, opts: dict) -> dict:
                 probes[{"dark": "dark_atoms_present", "slm": "slm_mask_present", "dmm": "dmm_present"}[k]] = 1
         if kind == "initial":
             probes["user_initial_state"] = 1
+        if case.get("large"):
+            probes["register_of_8_to_16_atoms"] = 1
+        if any(o.get("suffix") for o in case["cfg"]["observables"]):
+            probes["observable_with_tag_suffix"] = 1
         # pi pulse: the outcome is deterministic and reveals positions
         if kind == "pi":
             tgt = case["extra"]["pi_target"]
@@ -298,7 +319,8 @@ def run_one(tape: Tape, tier: str, opts: dict) -> dict:
             do_resume = pi_ == resume_choice
             pol = None
             if do_resume:
-                _, pol = C.clock_policy(tape, 11.0, tape.choice(["period", "every"], "rclock"))
+                # (large registers: autosaving after every unit of work would record hundreds of snapshots of ~100 KB)
+                _, pol = C.clock_policy(tape, 11.0, tape.choice(["period", "every"] if not case.get("large") else ["period"], "rclock"))
             out = run_under(world, case, seeds, perm, autosave=do_resume, policy=pol, record=do_resume)
             evals += 1
             used = getattr(out, "perm_used", perm)
@@ -441,15 +463,24 @@ def _maxdiff(a: dict, b: dict) -> float:
 
 
 def _pi_check(canon: dict, tgt: int, n: int, where: str, desc: dict) -> list[dict]:
+    V = _pi_check_tags(canon, tgt, n, where, desc, "occupation", "bitstrings")
+    if "occupation_x" in canon["tags"] or "bitstrings_x" in canon["tags"]:
+        for v in _pi_check_tags(canon, tgt, n, where, desc, "occupation_x", "bitstrings_x"):
+            v["site"] += "|tag_suffix"
+            V.append(v)
+    return V
+
+
+def _pi_check_tags(canon: dict, tgt: int, n: int, where: str, desc: dict, occ_tag: str, bs_tag: str) -> list[dict]:
     V = []
-    occ = canon["tags"].get("occupation")
+    occ = canon["tags"].get(occ_tag)
     if occ:
         v = np.asarray(occ[-1][1], dtype=float)
         exp = np.zeros(n)
         exp[tgt] = 1.0
         if float(np.max(np.abs(v - exp))) > 1e-3:
             V.append({"clause": "C03.pi-pulse-occupation", "site": where, "msg": f"pi pulse on atom #{tgt}: final occupations {v.tolist()} :: {desc}"})
-    bs = canon["tags"].get("bitstrings")
+    bs = canon["tags"].get(bs_tag)
     if bs:
         cnt = bs[-1][1].get("__counter__", {})
         want = "".join("1" if i == tgt else "0" for i in range(n))
